@@ -1,15 +1,22 @@
 """C07 -- ZIDs are unique, well-formed and recognised by every component.
 
 Profile `zid-history`:
-  * runs 0..SHARDS-1 compose ONE long deterministic history: the complete
-    successor chain of one date, driven through the public allocator until the
-    explicit out-of-IDs error, sharded by state injection into next_ids.json
-    (the manager's only state), with a restart (new process) per shard and a
-    new manager object at seeded points;
+  * `prepare` drives ONE long deterministic history through the public
+    allocator in a forked zorg process: a single date, allocation after
+    allocation until the explicit out-of-IDs error (135 252 allocations with a
+    new manager every 997).  It yields zorg's own successor chain and, at chosen
+    positions, the value zorg persisted in next_ids.json.  Nothing about the
+    ORDER of suffixes is assumed (the statement fixes none); count, uniqueness
+    and the explicit error are judged on this history (reported by run 0).
+  * runs 0..SHARDS-1 re-enter that history at SHARDS positions by state
+    injection (the persisted value zorg itself wrote there; the file is the
+    manager's only state), each in its own process, and apply the per-ZID
+    oracles (form, alphabet, one ZID token in both lexers, recognised by the
+    compiler) to their share; the last shard must end with the explicit error.
   * the remaining runs are seeded interleaved histories over several dates with
-    restarts between any two allocations, `seek` steps that place the persisted
-    counter just before a roll-over, and allocations made by real db create /
-    db reindex of pages with new notes.
+    restarts between any two allocations, `seek` steps that move a date's
+    persisted counter FORWARD to a position of zorg's own chain (just before
+    roll-overs and the end), and allocations made by real db create / reindex.
 """
 
 from __future__ import annotations
@@ -19,6 +26,7 @@ import json
 import os
 import random
 import re
+import shutil
 from typing import Any, Optional
 
 from .. import core, gen, history as hist, observers as ob, user
@@ -29,57 +37,93 @@ SHARDS = 32
 RUNS = {"quick": SHARDS + 200, "thorough": SHARDS + 6000}
 WALL_CAP = {"quick": 280, "thorough": 1500}
 EXHAUSTIVE_KEY = None
-RULE = (
-    f"runs 0..{SHARDS - 1}: shards of the complete successor chain of one date (all 51^2+51^3 = 135252 "
-    "suffixes, independently enumerated) driven through ZIDManager.get_next in forked processes from "
-    "state injected into next_ids.json, each ZID checked for uniqueness, form, alphabet, one-ZID-token "
-    "lexing by both lexers and recognition by the compiler (100 per page); the last shard must end with "
-    "the explicit out-of-IDs error after exactly the last suffix. Other runs: seeded histories of 20-200 "
-    "allocations over 3-5 dates split over processes/managers at seeded points, seek-to-roll-over state "
-    "injection, and real db create/reindex of pages with new notes. evaluations = ZIDs allocated and "
-    "checked; non-trivial = run crossed a roll-over (..9->A, ..Z->a, skipped letter, zz->000) or mixed "
-    "allocator and create/reindex allocations; distinct = distinct final next_ids.json states"
-)
 EVALS_FROM_STATS = True
-ASSUMPTIONS = [
-    "dates are in 2000-2099 (two-digit year)",
-    "the order of suffixes is not constrained; sharding assumes the natural order and falls back to reporting 'order differs' (not a violation) when zorg hands out another order",
-]
-
 ALPHA = gen.ZID_ALPHABET
 N2 = len(ALPHA) ** 2
 N3 = len(ALPHA) ** 3
 TOTAL = N2 + N3
+RULE = (
+    f"preparation: one sequential history of {TOTAL} allocations (all 51^2+51^3 suffixes of one date) through "
+    "ZIDManager.get_next in a forked process until the explicit out-of-IDs error, recording zorg's own chain and "
+    f"the persisted counter at chosen positions. Runs 0..{SHARDS - 1}: shards that re-enter the chain by state "
+    "injection and check every ZID for uniqueness, form, alphabet, one-ZID-token lexing by both lexers and "
+    "recognition by the compiler (100 per page). Other runs: seeded histories of 20-200 allocations over 3-5 "
+    "dates split over processes/managers at seeded points, forward seeks to chain positions just before "
+    "roll-overs and the end, and real db create/reindex of pages with new notes. evaluations = ZIDs allocated "
+    "and checked; non-trivial = run crossed a roll-over or the 2->3 character extension, reached exhaustion, or "
+    "mixed allocator and create/reindex allocations; distinct = distinct final next_ids.json states"
+)
+ASSUMPTIONS = [
+    "dates are in 2000-2099 (two-digit year)",
+    "next_ids.json is a JSON object keyed by YYMMDD; the VALUES are opaque to the harness (only values zorg itself wrote are ever injected)",
+    "the order of suffixes is not constrained",
+]
+
 _EXCLUDED = set("IOQSgijlpqy")
 _FORM = re.compile(r"^(\d{6})#([0-9A-Za-z]{2,3})$")
+CHAIN_DAY = _real_dt.date(2031, 7, 9).toordinal()
+SEEK_POS = sorted({9, 10, 50, 51, 52, 101, 102, N2 - 2, N2 - 1, N2, N2 + 1, N2 + 51, N2 + 2601, TOTAL - 3, TOTAL - 2, TOTAL - 1, TOTAL})
+
+_PREP: Optional[dict] = None
 
 
-def chain(pos: int) -> Optional[str]:
-    """Independent enumeration: position -> suffix (None past the end)."""
-    a = ALPHA
-    n = len(a)
-    if pos < N2:
-        return a[pos // n] + a[pos % n]
-    pos -= N2
-    if pos < N3:
-        return a[pos // (n * n)] + a[(pos // n) % n] + a[pos % n]
+def _bounds() -> list[int]:
+    return [i * TOTAL // SHARDS for i in range(SHARDS + 1)]
+
+
+def prepare(tier: str = "quick") -> dict:
+    """The sequential full-chain history (once per check process; workers inherit it)."""
+    global _PREP
+    if _PREP is not None:
+        return _PREP
+    from ..runner import fresh_dir
+
+    scratch = fresh_dir("c07-prepare")
+    try:
+        sim = core.Sim(os.path.join(scratch, "w"), seed=7, day=core.EPOCH_DAY)
+        os.makedirs(os.path.join(sim.zdir, ".zorg"), exist_ok=True)
+        positions = sorted(set(_bounds()) | set(SEEK_POS))
+        o = sim.run({"op": "alloc_chain", "date": CHAIN_DAY, "positions": positions, "limit": TOTAL + 50}, budget=1800)
+        prep: dict[str, Any] = {"status": o.status, "effects": len(o.effects)}
+        if o.status == "ok":
+            zids = o.ret["zids"]
+            prep.update(
+                {
+                    "suffixes": [z[7:] for z in zids],
+                    "n": len(zids),
+                    "error": o.ret.get("error"),
+                    "error_type": o.ret.get("error_type"),
+                    "snapshots": {int(k): v for k, v in o.ret["snapshots"].items()},
+                    "malformed": next((z for z in zids if not _FORM.match(z) or set(z[7:]) & _EXCLUDED), None),
+                    "duplicate": _first_dup(zids),
+                }
+            )
+        else:
+            prep["exc"] = o.exc
+        _PREP = prep
+        return prep
+    finally:
+        shutil.rmtree(scratch, ignore_errors=True)
+
+
+def _first_dup(zids: list[str]) -> Optional[str]:
+    seen: set = set()
+    for z in zids:
+        if z in seen:
+            return z
+        seen.add(z)
     return None
 
 
 def gen_case_idx(idx: int, rng: random.Random, tier: str) -> dict:
     if idx < SHARDS:
-        lo = idx * TOTAL // SHARDS
-        hi = (idx + 1) * TOTAL // SHARDS
-        day = _real_dt.date(2031, 7, 9).toordinal()
-        return {"kind": "shard", "shard": idx, "lo": lo, "hi": hi, "date": day, "managers": rng.randint(1, 50), "world": {"files": {}}}
+        b = _bounds()
+        return {"kind": "shard", "shard": idx, "lo": b[idx], "hi": b[idx + 1], "date": CHAIN_DAY, "world": {"files": {}}}
     return gen_history(rng, tier)
 
 
 def gen_case(rng: random.Random, tier: str) -> dict:  # pragma: no cover - runner uses gen_case_idx
     return gen_history(rng, tier)
-
-
-_ROLLOVERS = ["08", "09", "0Z", "0z", "0H", "0N", "0R", "zx", "zz", "9z", "Zz", "0zz", "zzx", "00z", "0Hz", "zzw"]
 
 
 def gen_history(rng: random.Random, tier: str) -> dict:
@@ -98,31 +142,19 @@ def gen_history(rng: random.Random, tier: str) -> dict:
             steps.append({"op": "alloc", "dates": [rng.choice(dates) for _ in range(n)], "per_manager": rng.choice([1, 1, 2, 5, 0])})
             total -= n
         elif x < 0.80:
-            steps.append({"op": "seek", "date": rng.choice(dates), "suffix": rng.choice(_ROLLOVERS)})
+            steps.append({"op": "seek", "date": rng.choice(dates), "pos": rng.choice(SEEK_POS)})
         else:
-            # a page with new notes dated on one of the dates, indexed for real
             d = _real_dt.date.fromordinal(rng.choice(dates))
             k = rng.randint(1, 4)
             text = f"# Page {d.isoformat()}\n\n" + "".join(f"- {rng.choice(gen.PLAIN)} {rng.choice(gen.PLAIN)}\n" for _ in range(k))
-            steps.append({"op": "index", "how": rng.choice(["create", "reindex"]), "name": f"p{len(steps)}.zo", "text": text})
+            steps.append({"op": "index", "how": rng.choice(["create", "reindex"]), "name": f"p{len(steps)}.zo", "text": text, "date": d.toordinal(), "n": k})
             total -= k
     return {"kind": "history", "dates": dates, "steps": steps, "world": {"files": {}}, "day0": core.EPOCH_DAY}
 
 
-def finalize(results: list[dict], tier: str) -> list[dict]:
-    """The shards assume the natural suffix order.  When zorg hands out another
-    order (legal: the statement fixes none) their composition proves nothing, so
-    the whole chain is then driven once more as ONE sequential history."""
-    if any((r.get("stats") or {}).get("order-differs-from-natural-enumeration") for r in results if r["idx"] < SHARDS):
-        return [{"kind": "full", "date": _real_dt.date(2031, 7, 9).toordinal(), "world": {"files": {}}}]
-    return []
-
-
 def describe(case: dict) -> Any:
     if case["kind"] == "shard":
-        return {k: case[k] for k in ("kind", "shard", "lo", "hi", "managers")}
-    if case["kind"] == "full":
-        return {"kind": "full"}
+        return {k: case[k] for k in ("kind", "shard", "lo", "hi")}
     return {"kind": "history", "dates": case["dates"], "steps": case["steps"][:12], "n_steps": len(case["steps"])}
 
 
@@ -176,7 +208,6 @@ def check_zids(zids: list[str], want_dates: list[int], seen: set, scratch: str, 
             if tt != ["ZID"]:
                 return hist.viol(f"zid-not-one-token-in-{name}-lexer", f"suffix-length-{len(m.group(2))}", zid=z, tokens=tt)
         rec.stats["evaluations"] = rec.stats.get("evaluations", 0) + 1
-    # compile them 100 per page
     zdir = os.path.join(scratch, "zc")
     for i in range(0, len(zids), 100):
         batch = zids[i : i + 100]
@@ -211,178 +242,163 @@ def _read_next_ids(sim: core.Sim) -> dict:
         return json.loads(f.read())
 
 
+def _is_out_of_ids(exc: dict) -> bool:
+    """The explicit out-of-IDs error, recognised structurally (a RuntimeError or one of
+    zorg's own exception classes raised by the ZID manager module itself), never by its wording."""
+    where = exc.get("where") or []
+    ok_type = exc.get("type") == "RuntimeError" or str(exc.get("module", "")).startswith("zorg")
+    return ok_type and bool(where) and where[-1][0].endswith("_zid_manager.py")
+
+
 def execute(case: dict, scratch: str) -> dict:
     rec = hist.Rec()
     rec.stats["evaluations"] = 0
+    prep = prepare()
     sim = hist.materialize(scratch, case)
     os.makedirs(os.path.join(sim.zdir, ".zorg"), exist_ok=True)
+    if prep.get("status") != "ok":
+        if case["kind"] == "shard" and case["shard"] == 0:
+            exc = prep.get("exc") or {}
+            return rec.result(hist.viol("allocation-crashed", f"{exc.get('type', prep.get('status'))}", where="full-chain history", msg=exc.get("msg")))
+        return rec.result()
     if case["kind"] == "shard":
-        return _execute_shard(case, sim, scratch, rec)
-    if case["kind"] == "full":
-        return _execute_full(case, sim, scratch, rec)
-    return _execute_history(case, sim, scratch, rec)
+        return _execute_shard(case, sim, scratch, rec, prep)
+    return _execute_history(case, sim, scratch, rec, prep)
 
 
-def _execute_shard(case: dict, sim: core.Sim, scratch: str, rec: hist.Rec) -> dict:
+def _chain_verdict(prep: dict) -> Optional[dict]:
+    """Clauses judged on the sequential full-chain history (reported by shard 0)."""
+    if prep["malformed"]:
+        return hist.viol("zid-malformed", "full-chain", zid=prep["malformed"])
+    if prep["duplicate"]:
+        return hist.viol("zid-allocated-twice", f"suffix-length-{len(prep['duplicate']) - 7}", zid=prep["duplicate"], where="full-chain history")
+    if prep["error"] is None:
+        return hist.viol("no-out-of-ids-error", "-", allocated=prep["n"])
+    if prep.get("error_type") != "RuntimeError":
+        return hist.viol("exhaustion-error-not-explicit", f"{prep.get('error_type')}", error=prep["error"])
+    if prep["n"] != TOTAL:
+        return hist.viol("exhaustion-after-wrong-count", f"handed-out-{prep['n']}-of-{TOTAL}", last=prep["suffixes"][-1:])
+    return None
+
+
+def _execute_shard(case: dict, sim: core.Sim, scratch: str, rec: hist.Rec, prep: dict) -> dict:
     lo, hi, day = case["lo"], case["hi"], case["date"]
     key = _real_dt.date.fromordinal(day).strftime("%y%m%d")
-    if lo > 0:
-        _write_next_ids(sim, {key: chain(lo)})
+    if case["shard"] == 0:
+        rec.events.append({"chain": prep["n"], "error_type": prep.get("error_type")})
+        rec.probe("exhaustion-reached", int(prep["error"] is not None))
+        v = _chain_verdict(prep)
+        if v:
+            return rec.result(v)
+        if len(set(len(s) for s in prep["suffixes"])) > 1:
+            rec.probe("two-to-three-character-extension-crossed")
+    if lo >= prep["n"] or lo not in prep["snapshots"]:
+        rec.stat("shard-outside-the-chain")
+        return rec.result()
+    if prep["snapshots"][lo] is not None:
+        _write_next_ids(sim, {key: prep["snapshots"][lo]})
     last = hi >= TOTAL
-    n = hi - lo
-    op = {"op": "alloc_until_error", "date": day, "limit": n + (5 if last else 0)}
-    o = sim.run(op, budget=600)
+    n = min(hi, prep["n"]) - lo
+    o = sim.run({"op": "alloc_until_error", "date": day, "limit": n + (5 if last else 0)}, budget=600)
     rec.stats["processes"] += 1
     rec.stats["effects"] += len(o.effects)
     if o.status != "ok":
         return rec.result(hist.viol("allocation-crashed", f"{(o.exc or {}).get('type')}", outcome=o.brief(), msg=(o.exc or {}).get("msg")))
-    ret = o.ret
-    zids = ret["zids"]
-    rec.events.append({"shard": case["shard"], "n": len(zids), "first": zids[:1], "last": zids[-1:], "error": ret["error"]})
-    natural = all(z[7:] == chain(lo + i) for i, z in enumerate(zids[: n]))
-    if not natural:
-        rec.stat("order-differs-from-natural-enumeration")
-    seen: set = set()
-    v = check_zids(zids, [day] * len(zids), seen, scratch, rec)
+    zids = o.ret["zids"]
+    rec.events.append({"shard": case["shard"], "n": len(zids), "first": zids[:1], "last": zids[-1:], "error": o.ret["error"]})
+    composes = [z[7:] for z in zids[:n]] == prep["suffixes"][lo : lo + n]
+    rec.stat("shards-composed" if composes else "shard-does-not-reproduce-its-chain-segment")
+    v = check_zids(zids, [day] * len(zids), set(), scratch, rec)
     if v:
         return rec.result(v)
-    for z in zids:
-        s = z[7:]
-        if len(s) == 3 and s.endswith("00") or s[-1] in "Aa0" or s in ("000",):
-            rec.probe("roll-over-crossed")
-            break
+    rec.probe("roll-over-crossed", int(any(z[-1] in "0Aa" for z in zids)))
     if not last:
-        if ret["error"] is not None or len(zids) != n:
-            return rec.result(hist.viol("allocation-failed-before-exhaustion", f"{ret.get('error_type')}", shard=case["shard"], allocated=len(zids), wanted=n, error=ret["error"]))
-        if natural:
-            nxt = _read_next_ids(sim).get(key)
-            if nxt != chain(hi):
-                return rec.result(hist.viol("persisted-counter-wrong-after-shard", "-", shard=case["shard"], persisted=nxt, expected=chain(hi)))
-            rec.stat("shards-composed")
-    else:
-        rec.probe("exhaustion-reached")
-        if ret["error"] is None:
-            return rec.result(hist.viol("no-out-of-ids-error", "-", allocated=len(zids), expected=n))
-        if ret.get("error_type") != "RuntimeError":
-            return rec.result(hist.viol("exhaustion-error-not-explicit", f"{ret.get('error_type')}", error=ret["error"]))
-        if natural and len(zids) != n:
-            return rec.result(hist.viol("exhaustion-after-wrong-count", f"handed-out-{TOTAL - n + len(zids)}-of-{TOTAL}", allocated_in_shard=len(zids), expected_in_shard=n, last=zids[-1:]))
+        if o.ret["error"] is not None or len(zids) != n:
+            return rec.result(hist.viol("allocation-failed-before-exhaustion", f"{o.ret.get('error_type')}", shard=case["shard"], allocated=len(zids), wanted=n, error=o.ret["error"]))
+    elif composes:
+        if o.ret["error"] is None or len(zids) != n:
+            return rec.result(hist.viol("no-out-of-ids-error", "after-state-injection", allocated=len(zids), expected=n))
         # the error must persist: a restart does not hand out anything either
         o2 = sim.run({"op": "alloc_until_error", "date": day, "limit": 3})
         rec.stats["processes"] += 1
         if o2.status != "ok" or o2.ret["zids"] or o2.ret.get("error_type") != "RuntimeError":
             return rec.result(hist.viol("allocation-after-exhaustion", "-", outcome=o2.brief(), ret=o2.ret if o2.status == "ok" else None))
-        rec.stat("shards-composed")
     rec.states.append(json.dumps(_read_next_ids(sim), sort_keys=True))
     return rec.result()
 
 
-def _execute_full(case: dict, sim: core.Sim, scratch: str, rec: hist.Rec) -> dict:
-    day = case["date"]
-    o = sim.run({"op": "alloc_until_error", "date": day, "limit": TOTAL + 10}, budget=1800)
-    rec.stats["processes"] += 1
-    rec.probe("full-chain-sequential-fallback")
-    if o.status != "ok":
-        return rec.result(hist.viol("allocation-crashed", f"{(o.exc or {}).get('type')}", outcome=o.brief()))
-    zids = o.ret["zids"]
-    rec.events.append({"full": True, "n": len(zids), "error": o.ret["error"]})
+def _execute_history(case: dict, sim: core.Sim, scratch: str, rec: hist.Rec, prep: dict) -> dict:
     seen: set = set()
-    # form / alphabet / uniqueness for all; lexing and compilation for every 40th
-    for i, z in enumerate(zids):
-        m = _FORM.match(z)
-        if not m or set(m.group(2)) & _EXCLUDED:
-            return rec.result(hist.viol("zid-malformed", "-", zid=z))
-        if z in seen:
-            return rec.result(hist.viol("zid-allocated-twice", f"suffix-length-{len(m.group(2))}", zid=z))
-        seen.add(z)
-    v = check_zids(zids[::40], [day] * len(zids[::40]), set(), scratch, rec)
-    if v:
-        return rec.result(v)
-    rec.stats["evaluations"] = rec.stats.get("evaluations", 0) + len(zids)
-    if o.ret["error"] is None or o.ret.get("error_type") != "RuntimeError":
-        return rec.result(hist.viol("no-out-of-ids-error", "-", allocated=len(zids)))
-    if len(zids) != TOTAL:
-        return rec.result(hist.viol("exhaustion-after-wrong-count", f"handed-out-{len(zids)}-of-{TOTAL}", last=zids[-1:]))
-    return rec.result()
-
-
-def _execute_history(case: dict, sim: core.Sim, scratch: str, rec: hist.Rec) -> dict:
-    seen: set = set()
-    injected: dict[str, set] = {}
+    pos: dict[int, int] = {}  # date -> number of suffixes of that date already handed out
     mixed = {"alloc": False, "index": False}
+
+    def expect(dates: list[int]) -> tuple[int, bool]:
+        """-> (how many of these allocations can succeed, whether the op must then fail)"""
+        p = dict(pos)
+        for i, d in enumerate(dates):
+            if p.get(d, 0) >= prep["n"]:
+                return i, True
+            p[d] = p.get(d, 0) + 1
+        return len(dates), False
+
     for i, st in enumerate(case["steps"]):
+        if st["op"] == "seek":
+            # state injection: move the persisted counter of one date FORWARD to a position of
+            # zorg's own chain (never backwards: that would re-issue IDs by construction)
+            d, target = st["date"], min(st["pos"], prep["n"])
+            if target > pos.get(d, 0) and target in prep["snapshots"] and prep["snapshots"][target] is not None:
+                key = _real_dt.date.fromordinal(d).strftime("%y%m%d")
+                m = _read_next_ids(sim)
+                m[key] = prep["snapshots"][target]
+                _write_next_ids(sim, m)
+                pos[d] = target
+                rec.probe("seek-to-roll-over")
+                rec.note("seek", date=key, pos=target)
+            continue
         if st["op"] == "alloc":
+            dates = st["dates"]
+            ok_n, must_fail = expect(dates)
             o = sim.run(st)
-            rec.proc({"op": "alloc", "n": len(st["dates"]), "per_manager": st["per_manager"]}, None, o)
-            if o.status != "ok":
-                exc = o.exc or {}
-                if _is_out_of_ids(exc):
-                    # legitimate only if that date is really exhausted (seek put it at the end)
-                    rec.probe("exhaustion-reached-in-history")
-                    nm = _read_next_ids(sim)
-                    continue
-                return rec.result(hist.viol("allocation-crashed", f"{exc.get('type')}", step=i, outcome=o.brief(), msg=exc.get("msg")))
+            rec.proc({"op": "alloc", "n": len(dates), "per_manager": st["per_manager"]}, None, o)
+        else:
+            dates = [st["date"]] * st["n"]
+            ok_n, must_fail = expect(dates)
+            user._write(os.path.join(sim.zdir, st["name"]), st["text"])
+            o = sim.run({"op": st["how"]})
+            rec.proc({"op": st["how"]}, None, o)
+        if o.status != "ok":
+            exc = o.exc or {}
+            if not _is_out_of_ids(exc):
+                return rec.result(hist.viol("allocation-crashed" if st["op"] == "alloc" else "index-command-failed", f"{exc.get('type')}", step=i, outcome=o.brief(), msg=exc.get("msg")))
+            if not must_fail:
+                return rec.result(hist.viol("allocation-failed-before-exhaustion", "in-history", step=i, positions={str(k): v for k, v in pos.items()}, total=prep["n"]))
+            rec.probe("exhaustion-reached-in-history")
+            for d in dates[:ok_n]:
+                pos[d] = pos.get(d, 0) + 1
+            if st["op"] == "index":
+                os.unlink(os.path.join(sim.zdir, st["name"]))
+            continue
+        if must_fail:
+            return rec.result(hist.viol("no-out-of-ids-error", "in-history", step=i, positions={str(k): v for k, v in pos.items()}, total=prep["n"]))
+        for d in dates:
+            pos[d] = pos.get(d, 0) + 1
+        if st["op"] == "alloc":
             mixed["alloc"] = True
             zids = o.ret
-            v = check_zids(zids, st["dates"][: len(zids)], seen, scratch, rec)
-            if v:
-                v["detail"]["step"] = i
-                return rec.result(v)
-            if any(z[7:] in ("0A", "0a", "10", "000") or z.endswith(("A", "a")) for z in zids):
-                rec.probe("roll-over-crossed")
-        elif st["op"] == "seek":
-            # state injection: jump the persisted counter of one date forward to
-            # just before a roll-over; never backwards (that would re-issue IDs)
-            key = _real_dt.date.fromordinal(st["date"]).strftime("%y%m%d")
-            m = _read_next_ids(sim)
-            cur = m.get(key, "00")
-            if _pos(st["suffix"]) is not None and _pos(cur) is not None and _pos(st["suffix"]) > _pos(cur):
-                m[key] = st["suffix"]
-                _write_next_ids(sim, m)
-                rec.probe("seek-to-roll-over")
-                rec.note("seek", date=key, suffix=st["suffix"])
-        elif st["op"] == "index":
-            user._write(os.path.join(sim.zdir, st["name"]), st["text"])
-            op = {"op": st["how"]}
-            o = sim.run(op)
-            rec.proc(op, None, o)
-            if o.status != "ok":
-                exc = o.exc or {}
-                if _is_out_of_ids(exc):
-                    rec.probe("exhaustion-reached-in-history")
-                    os.unlink(os.path.join(sim.zdir, st["name"]))
-                    continue
-                return rec.result(hist.viol("index-command-failed", f"{exc.get('type')}", step=i, msg=exc.get("msg")))
+            want = dates[: len(zids)]
+        else:
             mixed["index"] = True
             page = ob.compile_page(sim.zdir, st["name"])
             zids = [n.zid for n in page.notes]
             if any(z is None for z in zids):
                 return rec.result(hist.viol("zid-not-recognised-by-compiler", "after-index-command", step=i, text=ob.read_all_files(sim.zdir)[st["name"]].decode()))
-            day = _real_dt.datetime.strptime("20" + zids[0][:6], "%Y%m%d").date().toordinal() if zids else 0
-            v = check_zids(zids, [day] * len(zids), seen, scratch, rec)
-            if v:
-                v["detail"]["step"] = i
-                return rec.result(v)
+            want = [st["date"]] * len(zids)
+        v = check_zids(zids, want, seen, scratch, rec)
+        if v:
+            v["detail"]["step"] = i
+            return rec.result(v)
+        rec.probe("roll-over-crossed", int(any(z[-1] in "0Aa" for z in zids)))
+        rec.probe("two-to-three-character-extension-crossed", int(len({len(z) for z in zids}) > 1))
     rec.probe("allocator-and-index-commands-mixed", int(mixed["alloc"] and mixed["index"]))
     rec.states.append(json.dumps(_read_next_ids(sim), sort_keys=True))
     return rec.result()
-
-
-def _is_out_of_ids(exc: dict) -> bool:
-    """The explicit out-of-IDs error, recognised structurally (a RuntimeError raised
-    by the ZID manager module itself), never by its wording."""
-    where = exc.get("where") or []
-    return exc.get("type") == "RuntimeError" and bool(where) and where[-1][0].endswith("_zid_manager.py")
-
-
-def _pos(suffix: str) -> Optional[int]:
-    try:
-        a = ALPHA
-        n = len(a)
-        if len(suffix) == 2:
-            return a.index(suffix[0]) * n + a.index(suffix[1])
-        if len(suffix) == 3:
-            return N2 + a.index(suffix[0]) * n * n + a.index(suffix[1]) * n + a.index(suffix[2])
-    except ValueError:
-        return None
-    return None
